@@ -137,7 +137,7 @@ def run_one(args):
     import emdfile
     try:
         if c['stream'] == 'm':
-            return M.run_value(c['v'], scratch, c['where'], c.get('alias', False))
+            return M.run_value(c['v'], scratch, c['where'], c.get('alias', False), c.get('share_root', False))
         if c['stream'] == 'n':
             nm, pos = c['name'], c['pos']
             def build():
